@@ -314,7 +314,8 @@ def field_stores(m, loaders, fld):
                     isinstance(st, ast.Assign) and isinstance(
                         st.value, ast.Constant)
                     and st.value.value == v.value
-                    and m.owner(meth).name == "__init__"
+                    and (m.owner(meth).name == "__init__"
+                         or _called_from_init(m, cq2, meth))
                     for cq2 in loaders
                     for st, meth in m.classes[cq2].fields.get(fld, []))
                 if isinstance(v, ast.Attribute) and isinstance(
@@ -329,6 +330,24 @@ def field_stores(m, loaders, fld):
                 if (fn, n, reset) not in out:
                     out.append((fn, n, reset))
     return out
+
+
+def _called_from_init(m, cq, meth):
+    """`meth` is called on self, unconditionally, by a constructor of the
+    class hierarchy (a set-up helper shared with the top-level load)."""
+    for k in m.mro(cq):
+        c = m.classes.get(k)
+        init = c.methods.get("__init__") if c is not None else None
+        if init is None or not init.params:
+            continue
+        for st in init.node.body:
+            if isinstance(st, ast.Expr) and isinstance(st.value, ast.Call) \
+                    and isinstance(st.value.func, ast.Attribute) \
+                    and isinstance(st.value.func.value, ast.Name) \
+                    and st.value.func.value.id == init.params[0] \
+                    and st.value.func.attr == meth.name:
+                return True
+    return False
 
 
 def restore_check(ctx, rule):
